@@ -46,7 +46,7 @@ def cases(tier, seed):
         m = i % 6
         kw = dict(methods=(m,), seasons=(2, 4) if tier == "thorough" else (2, 3), off_season=False,
                   p_gw=0.25, p_custom=0.25, p_bunds=0.3, p_file=0.2, crops=(thermal_pool if i % 5 == 4 else None), end_shape=gen.pick(rng, ["after", "mid", "anniv"]),
-                  p_co2=0.6, pre=(0, 0, 7, 2, 25, 200, 330))
+                  p_co2=0.6, pre=(0, 0, 7, 2, 25, 200, 330), harvest_early=0.25)
         if m == 4:
             kw.update(dry=True)
         if m == 1:
